@@ -26,6 +26,7 @@ type SpecEnv struct {
 	cur      *State
 	old      *State
 	before   *State
+	prev     *State // state at the start of the current loop iteration (transition clauses)
 	vars     map[string]specVar
 	pkg      *types.Package
 	scopePos token.Pos // when valid: locals of e.fn visible at this position resolve to their cells
@@ -957,6 +958,13 @@ func (env *SpecEnv) call(x *SExpr) (*Term, types.Type) {
 				// loop-entry state: both the heap and the locals as they were when the loop was entered
 				n := env.inState(env.before)
 				n.cellSt = env.before
+				return n.tr(args[0])
+			case "prev":
+				if env.prev == nil {
+					env.fail("prev() is only available in loop transition clauses")
+				}
+				n := env.inState(env.prev)
+				n.cellSt = env.prev
 				return n.tr(args[0])
 			case "has":
 				m, mt := env.tr(args[0])
